@@ -409,7 +409,11 @@ class CoeffRewriter(IdentityMapper):
 @check("C19.poly")
 def c_poly(ctx, case):
     da, db, n = case
-    A, B = Polynomial(X, da), Polynomial(X, db)
+    # the term data arrive as a tuple, a list or a ONE-SHOT iterable (zip / generator), which
+    # the constructor documents no restriction on
+    mk_data = [tuple, list, iter, lambda d: (t for t in d), lambda d: zip([e for e, _ in d], [c for _, c in d])]
+    A = Polynomial(X, mk_data[(len(da) + n) % len(mk_data)](da))
+    B = Polynomial(X, mk_data[(len(db) + 2 * n) % len(mk_data)](db))
     pts = [F(2), F(-1), F(1, 2), F(3)]
     ops = [("+", lambda: A + B, lambda a, b: a + b), ("-", lambda: A - B, lambda a, b: a - b),
            ("*", lambda: A * B, lambda a, b: a * b), ("**", lambda: A ** n, lambda a, b: a ** n),
@@ -549,6 +553,17 @@ def c_quotient(ctx, case):
     if got != n / d:
         ctx.fail("C19.quotient", case, "value",
                  f"quotient({n}, {d}) = {node!r} evaluates to {got!r}, n/d = {n/d!r}")
+        return
+    # EXACT: what the node holds is the rational n/d itself, not a rounded image of it
+    num, den = getattr(node, "numerator", node), getattr(node, "denominator", 1)
+    try:
+        exact = F(num) / F(den) == F(n, d) and not isinstance(num, float) and not isinstance(den, float)
+    except (TypeError, ValueError):
+        exact = False
+    if not exact:
+        ctx.fail("C19.quotient", case, "not-exact",
+                 f"quotient({n}, {d}) = {node!r} holds {num!r} / {den!r}, which is not the exact "
+                 f"rational {F(n, d)}")
 
 
 def workload(ctx):
@@ -631,7 +646,7 @@ def workload(ctx):
         ctx.run("C19.poly", (da, db, rng.randint(0, 4)))
     # quotient node
     for i in range(ctx.per_shard(ctx.pick(3000, 60000))):
-        hi = rng.choice([10, 1000, 2 ** 53 - 1])
+        hi = rng.choice([10, 1000, 2 ** 53 - 1, 2 ** 62, 2 ** 90])
         n, d = rng.randint(-hi, hi), rng.randint(-hi, hi)
         if d == 0:
             continue
